@@ -208,7 +208,15 @@ static void fill(Memory &mem, uint32_t addr, int p, int tail, bool complement_ta
     uint8_t t;
     if (tail == 0) { t = 0; }
     else if (tail == 1) { t = 0xff; }
-    else { t = (uint8_t)((p * 31 + i * 97 + (p >> 5)) ^ (i << 3)); }
+    else if (tail == 2) { t = (uint8_t)((p * 31 + i * 97 + (p >> 5)) ^ (i << 3)); }
+    else
+    {
+      // structured tails (32-bit ISAs): the second half word is a single bit, an adjacent bit pair or a mask
+      static const uint16_t masks[] = { 0x5555, 0xaaaa, 0x0f0f, 0xf0f0, 0x00ff, 0xff00 };
+      int k = tail - 3;
+      uint16_t v = k < 16 ? (1 << k) : (k < 31 ? (3 << (k - 16)) : masks[(k - 31) % 6]);
+      t = i == 2 ? (v & 0xff) : (i == 3 ? (v >> 8) : 0);
+    }
     b[i] = t;
   }
   for (int i = 0; i < 20; i++)
@@ -431,7 +439,7 @@ static bool asm_one(const NvCpu *cpu, uint32_t addr, const std::string &text, st
   return !bytes.empty() && bytes.size() == r.image.size();
 }
 
-static void c07scan_child(const NvCpu *cpu, int lo, int hi, int step, int tails, uint32_t addr, int fd)
+static void c07scan_child(const NvCpu *cpu, int lo, int hi, int step, int tails, int stails, uint32_t addr, int fd)
 {
   Memory mem;
   mem.endian = cpu->endian;
@@ -445,7 +453,7 @@ static void c07scan_child(const NvCpu *cpu, int lo, int hi, int step, int tails,
     if (write(fd, out.data(), out.size()) < 0) { _exit(3); }
     out.clear();
     alarm(20);
-    for (int tail = 3 - tails; tail < 3; tail++)
+    for (int tail = 3 - tails; tail < 3 + stails; tail++)
     {
       fill(mem, addr, p, tail, false, 0);
       std::string t;
@@ -533,6 +541,7 @@ static void do_c07scan(const Frame &q, Frame &a)
   int hi = atoi(get(q, "hi", "65535").c_str());
   int step = atoi(get(q, "step", "1").c_str());
   int tails = atoi(get(q, "tails", "1").c_str());
+  int stails = atoi(get(q, "stails", "0").c_str());
   uint32_t addr = strtoul(get(q, "addr", "256").c_str(), NULL, 0);
   std::string anomalies;
   long st[5] = { 0, 0, 0, 0, 0 };
@@ -548,7 +557,7 @@ static void do_c07scan(const Frame &q, Frame &a)
     if (pid == 0)
     {
       close(fds[0]);
-      c07scan_child(cpu, cur, hi, step, tails, addr, fds[1]);
+      c07scan_child(cpu, cur, hi, step, tails, stails, addr, fds[1]);
     }
     close(fds[1]);
     std::string text;
